@@ -208,19 +208,20 @@ def run_kani(sc, h, timeout, extra_args=(), limit=True):
     full = f"verif_harness::{h['mod']}::{h['name']}"
     cmd = ["cargo", "kani", "-Z", "stubbing", "--harness", full, "--exact", *extra_args]
     t0 = time.time()
+    # own session, so that a timeout can kill the whole tree (cargo -> kani-driver -> cbmc)
+    p = subprocess.Popen(cmd, cwd=sc.sr, env=cargo_env(sc), stdout=subprocess.PIPE, stderr=subprocess.STDOUT,
+                         preexec_fn=limit_mem if limit else None, text=True, errors="replace", start_new_session=True)
     try:
-        p = subprocess.run(
-            cmd, cwd=sc.sr, env=cargo_env(sc), stdout=subprocess.PIPE, stderr=subprocess.STDOUT,
-            timeout=timeout, preexec_fn=limit_mem if limit else None, text=True, errors="replace",
-        )
-        out, rc, timed_out = p.stdout, p.returncode, False
-    except subprocess.TimeoutExpired as e:
-        out = (e.stdout or b"")
-        if isinstance(out, bytes):
-            out = out.decode(errors="replace")
+        out, _ = p.communicate(timeout=timeout)
+        rc, timed_out = p.returncode, False
+    except subprocess.TimeoutExpired:
+        import signal
+        try:
+            os.killpg(p.pid, signal.SIGKILL)
+        except ProcessLookupError:
+            pass
+        out, _ = p.communicate()
         rc, timed_out = -1, True
-        # kill leftover cbmc children of this harness
-        subprocess.run(["pkill", "-f", h["name"]], stdout=subprocess.DEVNULL, stderr=subprocess.DEVNULL)
     return out, rc, timed_out, time.time() - t0
 
 
